@@ -347,43 +347,61 @@ def _get_or_make_region(
 
   # position
 
+  position = None
+  position_align = None
+
   value = cue_settings.get("position")
   if value is not None:
     value = value.split(",")
 
-    if len(value) > 1 and value[1] in ("center", "line-left", "line-right"):
-      line_align = value[1]
-    else:
-      if text_align == styles.TextAlignType.start:
-        line_align = "line-right" if writing_mode == styles.WritingModeType.rltb else "line-left"
-      elif text_align == styles.TextAlignType.end:
-        line_align = "line-left" if writing_mode == styles.WritingModeType.rltb else "line-right"
+    if len(value) > 1:
+      if value[1] in ("center", "line-left", "line-right"):
+        position_align = value[1]
       else:
-        line_align = "center"
+        LOGGER.warning("Bad position alignment setting value: %s", value[1])
 
     position = parse_vtt_pct(value[0])
-    if position is not None:
-      if line_align == "center":
-        if writing_mode in (styles.WritingModeType.rltb, styles.WritingModeType.lrtb):
-          origin_x = position - extent_width / 2
-        else:
-          origin_y = position - extent_height / 2
-      elif line_align == "line-left":
-        if writing_mode in (styles.WritingModeType.rltb, styles.WritingModeType.lrtb):
-          origin_x = position
-        else:
-          origin_y = position
-      elif line_align == "line-right":
-        if writing_mode in (styles.WritingModeType.rltb, styles.WritingModeType.lrtb):
-          origin_x = position - extent_width
-        else:
-          origin_y = position - extent_height
-      else:
-        LOGGER.warning("Bad position alignment setting value: %s", line_align)
-
-    else:
+    if position is None:
       LOGGER.warning("Bad position setting value: %s", cue_settings.get("position"))
 
+  if position is not None or cue_settings.get("size") is not None:
+
+    if position_align is None:
+      if text_align == styles.TextAlignType.start:
+        position_align = "line-right" if writing_mode == styles.WritingModeType.rltb else "line-left"
+      elif text_align == styles.TextAlignType.end:
+        position_align = "line-left" if writing_mode == styles.WritingModeType.rltb else "line-right"
+      else:
+        position_align = "center"
+
+    if position is None:
+      position = {"line-left": 0, "center": 50, "line-right": 100}[position_align]
+
+    # the cue box does not extend beyond the edges of the root container
+
+    if position_align == "line-left":
+      max_size = 100 - position
+    elif position_align == "line-right":
+      max_size = position
+    else:
+      max_size = 2 * min(position, 100 - position)
+
+    if writing_mode in (styles.WritingModeType.rltb, styles.WritingModeType.lrtb):
+      extent_width = max(min(extent_width, max_size), 0)
+      if position_align == "center":
+        origin_x = position - extent_width / 2
+      elif position_align == "line-left":
+        origin_x = position
+      else:
+        origin_x = position - extent_width
+    else:
+      extent_height = max(min(extent_height, max_size), 0)
+      if position_align == "center":
+        origin_y = position - extent_height / 2
+      elif position_align == "line-left":
+        origin_y = position
+      else:
+        origin_y = position - extent_height
 
   extent = styles.ExtentType(
     height=styles.LengthType(extent_height),
